@@ -50,6 +50,7 @@ class Spec:
         self.planning = None  # list of planning variables
         self.interp = {}  # name -> interpolation mode
         self.dynpar = []  # names of dynamic parameters
+        self.integrate = False  # integrate_states = True (single shooting through the embedded root finder)
         self.ipopt = None  # extra IPOPT options (e.g. {"max_iter": 1} to force an unsuccessful solve)
         self.delays = []  # (path expression, delayed variable name, duration): y = delay(expr, tau)
         self.__dict__.update(kw)
@@ -197,6 +198,10 @@ def syn_class(mixins=()):
         @property
         def theta(self):
             return self.s.theta
+
+        @property
+        def integrate_states(self):
+            return bool(self.s.integrate)
 
         def times(self, variable=None):
             if variable is not None and variable in self.s.ctimes:
